@@ -48,7 +48,7 @@ fn run_stop<T: SampleX>(cfg0: &Config, pos: f64, ph: f64) -> Outcome {
         o.class(l);
     }
     cfg.channels = 1;
-    cfg.max_rel = 1.0;
+    cfg.max_rel = cfg.max_rel.max(1.0);
     let kind = cfg.kind;
     let is_fft = kind.is_fft();
     let ratio = cfg.nominal_ratio();
@@ -175,7 +175,7 @@ fn run_sixdb<T: SampleX>(cfg0: &Config, ph: f64) -> Outcome {
     let mut o = Outcome::default();
     let mut cfg = cfg0.clone();
     cfg.channels = 1;
-    cfg.max_rel = 1.0;
+    cfg.max_rel = cfg.max_rel.max(1.0);
     cfg.os = 512;
     cfg.interp = 0;
     let ratio = cfg.ratio;
@@ -325,7 +325,7 @@ fn run_impulse<T: SampleX>(cfg0: &Config, k: usize, q: usize, seed: u64) -> Outc
         q += 1;
     }
     cfg.channels = 1;
-    cfg.max_rel = 1.0;
+    cfg.max_rel = cfg.max_rel.max(1.0);
     cfg.ratio = k as f64 / q as f64;
     // the k phases of the response fall on table entries: the interpolation between entries is C01's clause
     cfg.os = (k * (cfg.os / k).max(1)).min(2048 / k * k);
